@@ -40,6 +40,11 @@ def main():
                 res[d] = {c: {"rc": v["rc"], "caught": v["rc"] == 1, "tail": v.get("tail", [])[:2] if v["rc"] == 2 else []} for c, v in r.items()}
         else:
             res[d] = {"error": p.stdout[-300:]}
+        mp = os.path.join("/verif/seeded", d, "meta.json")
+        if os.path.exists(mp) and "error" not in res[d]:
+            m = json.load(open(mp))
+            m["caught_by"] = res[d]
+            json.dump(m, open(mp, "w"), indent=1)
         print(d, res[d], flush=True)
         json.dump(res, open(out, "w"), indent=1, sort_keys=True)
 main()
